@@ -191,28 +191,185 @@ func (r *runner) checkTail(what string, id int, sr seekRange, got, tail []kv) {
 	}
 }
 
-func (r *runner) opDaoSeek(id int, sr seekRange, async bool) {
+// reentrant ops: what the consumer of a dao-level scan does with the SAME dao while the scan is
+// running (native contracts and System.Storage.Find consumers read and write storage items from
+// inside the loop). Reads use any key, also the item just delivered; writes stay outside the
+// prefix being scanned, so the running scan's answer is not allowed to change. The ops are
+// executed inside the callback and written out (reference update, oracle, model line) after the
+// scan's own line, in the order they ran.
+const (
+	reNone   = 0
+	reRandom = 1
+	reAlways = 2 // an unrelated GetStorageItem at every item (corpus)
+)
+
+type reentOp struct {
+	line, obs string
+	apply     func()
+	isGet     bool
+	key       []byte
+	val       []byte
+	found     bool
+}
+
+var otherID = int32(6) // another contract: keys 70 06 00 00 00 ‖ …
+
+func (r *runner) reentrant(n *node, mode int, seekPfx, item []byte) *reentOp {
+	g := r.g
+	if mode == reNone || (mode == reRandom && !g.r.Chance(2, 3)) {
+		return nil
+	}
+	otherPfx := []byte{0x70, byte(otherID), 0, 0, 0}
+	get := func(full []byte, viaItem bool, cid int32) *reentOp {
+		var v []byte
+		var found bool
+		if viaItem {
+			si := n.d.GetStorageItem(cid, full[5:])
+			v, found = si, si != nil
+		} else {
+			b, err := n.d.Store.Get(full)
+			v, found = b, err == nil
+		}
+		obs := "nf"
+		if found {
+			obs = "v " + hx.Hex(v)
+		}
+		r.o.Count("reentrant:get")
+		return &reentOp{line: fmt.Sprintf("get %d %s", n.id, hx.Hex(full)), obs: obs, isGet: true, key: full, val: bytes.Clone(v), found: found}
+	}
+	op := g.r.Intn(7)
+	if mode == reAlways {
+		op = 1
+	}
+	if n.dead && op >= 4 {
+		op -= 4
+	}
+	switch op {
+	case 0: // the item just delivered, through the dao
+		return get(append(bytes.Clone(seekPfx), item...), true, daoID)
+	case 1: // an item of another contract
+		return get(append(bytes.Clone(otherPfx), g.daoTail()...), true, otherID)
+	case 2: // any key in use, through the dao if it is an item of the scanned contract
+		k := g.key()
+		return get(k, bytes.HasPrefix(k, daoPrefix), daoID)
+	case 3:
+		return get(g.key(), false, 0)
+	case 4, 5: // write an item of another contract
+		full := append(bytes.Clone(otherPfx), g.daoTail()...)
+		g.remember(full)
+		if op == 4 {
+			v := g.val()
+			n.d.PutStorageItem(otherID, full[5:], v)
+			r.o.Count("reentrant:put")
+			return &reentOp{line: fmt.Sprintf("put %d %s %s", n.id, hx.Hex(full), hx.Hex(v)), obs: "ok", apply: func() {
+				n.own[string(full)] = append([]byte{}, v...)
+				if r.plain != nil && n.id == r.chainTop {
+					r.plain[string(full)] = append([]byte{}, v...)
+				}
+			}}
+		}
+		n.d.DeleteStorageItem(otherID, full[5:])
+		r.o.Count("reentrant:del")
+		return &reentOp{line: fmt.Sprintf("del %d %s", n.id, hx.Hex(full)), obs: "ok", apply: func() {
+			n.own[string(full)] = nil
+			if r.plain != nil && n.id == r.chainTop {
+				delete(r.plain, string(full))
+			}
+		}}
+	default: // write a key in use that is outside the scanned prefix
+		k := g.key()
+		if bytes.HasPrefix(k, seekPfx) {
+			return get(k, false, 0)
+		}
+		v := g.val()
+		if bytes.HasPrefix(k, daoPrefix) {
+			n.d.PutStorageItem(daoID, k[5:], v)
+		} else {
+			n.d.Store.Put(k, v)
+		}
+		r.o.Count("reentrant:put")
+		return &reentOp{line: fmt.Sprintf("put %d %s %s", n.id, hx.Hex(k), hx.Hex(v)), obs: "ok", apply: func() {
+			n.own[string(k)] = append([]byte{}, v...)
+			if r.plain != nil && n.id == r.chainTop {
+				r.plain[string(k)] = append([]byte{}, v...)
+			}
+		}}
+	}
+}
+
+// settle writes out the re-entrant ops after the scan's line.
+func (r *runner) settle(id int, ops []*reentOp) {
+	for _, e := range ops {
+		if e.isGet {
+			want, ok := r.w.view(id, 0)[string(e.key)]
+			if ok != e.found || (ok && !bytes.Equal(want, e.val)) {
+				r.fail("get-mismatch", "Get inside a dao scan callback, store=%d key=%s got %s want found=%v %s", id, hx.Hex(e.key), e.obs, ok, hx.Hex(want))
+			}
+			if r.plain != nil && id == r.chainTop {
+				wp, okp := r.plain[string(e.key)]
+				if okp != e.found || (okp && !bytes.Equal(wp, e.val)) {
+					r.fail("plain-map-mismatch", "Get inside a dao scan callback, store=%d key=%s got %s, the single map of all writes has found=%v %s", id, hx.Hex(e.key), e.obs, okp, hx.Hex(wp))
+				}
+			}
+		} else {
+			e.apply()
+		}
+		r.line(e.line, e.obs)
+	}
+}
+
+func (r *runner) opDaoSeek(id int, sr seekRange, async bool, re int) {
 	n := r.w.nodes[id]
 	rng := storage.SeekRange{Prefix: bytes.Clone(sr.pfx), Start: bytes.Clone(sr.start), Backwards: sr.bw, SearchDepth: sr.depth}
-	var got []kv
-	op := "dseek"
-	if async {
-		op = "dseeka"
-		var tail []kv
-		got, tail = realSeekAsync(func(ctx context.Context) chan storage.KeyValue { return n.d.SeekAsync(ctx, daoID, rng) }, sr.lim)
-		_ = tail
-	} else {
-		n.d.Seek(daoID, rng, func(k, v []byte) bool {
-			got = append(got, kv{bytes.Clone(k), bytes.Clone(v)})
-			return !(sr.lim > 0 && len(got) >= sr.lim)
-		})
-	}
 	full := sr
 	full.pfx = append(bytes.Clone(daoPrefix), sr.pfx...)
 	full.cut = true
-	r.checkSeek("dao."+op, id, full, got)
-	r.line(fmt.Sprintf("%s %d 70 %d %s %s %s %d %d", op, id, daoID, hx.Hex(sr.pfx), hx.Hex(sr.start), b01(sr.bw), sr.depth, sr.lim), showKVs(got))
+	var got []kv
+	var reops []*reentOp
+	op := "dseek"
+	obs := hx.Safe(func() string {
+		if async {
+			op = "dseeka"
+			ctx, cancel := context.WithCancel(context.Background())
+			c := n.d.SeekAsync(ctx, daoID, rng)
+			for e := range c {
+				got = append(got, kv{bytes.Clone(e.Key), bytes.Clone(e.Value)})
+				if x := r.reentrant(n, re, full.pfx, got[len(got)-1].k); x != nil {
+					reops = append(reops, x)
+				}
+				if sr.lim > 0 && len(got) >= sr.lim {
+					break
+				}
+			}
+			cancel()
+			for range c { //nolint:revive
+			}
+		} else {
+			n.d.Seek(daoID, rng, func(k, v []byte) bool {
+				got = append(got, kv{bytes.Clone(k), bytes.Clone(v)})
+				if x := r.reentrant(n, re, full.pfx, got[len(got)-1].k); x != nil {
+					reops = append(reops, x)
+				}
+				return !(sr.lim > 0 && len(got) >= sr.lim)
+			})
+		}
+		return showKVs(got)
+	})
+	if obs == "panic" {
+		r.fail("seek-panic", "dao.%s panicked store=%d prefix=%s", op, id, hx.Hex(sr.pfx))
+	} else {
+		r.checkSeek("dao."+op, id, full, got)
+	}
+	r.line(fmt.Sprintf("%s %d 70 %d %s %s %s %d %d", op, id, daoID, hx.Hex(sr.pfx), hx.Hex(sr.start), b01(sr.bw), sr.depth, sr.lim), obs)
 	r.countSeek(op, id, full, got)
+	if len(reops) > 0 {
+		r.o.Count("seek:with-reentrant-callback")
+		if n.priv {
+			r.o.Count("seek:with-reentrant-callback:private-dao")
+		}
+		r.o.Count("seek:with-reentrant-callback:" + r.w.nodes[0].kind)
+	}
+	r.settle(id, reops)
 }
 
 func (r *runner) countSeek(op string, id int, sr seekRange, got []kv) {
@@ -853,7 +1010,15 @@ func (r *runner) randomOp() {
 		} else {
 			sr.pfx = g.daoTail()
 		}
-		r.opDaoSeek(pickTop(rd), sr, g.r.Bool())
+		if g.r.Chance(2, 5) {
+			// the whole contract, as natives and Storage.Find with an empty prefix do
+			sr.pfx, sr.start = nil, nil
+		}
+		re := reNone
+		if g.r.Chance(3, 5) {
+			re = reRandom
+		}
+		r.opDaoSeek(pickTop(rd), sr, g.r.Bool(), re)
 	case 8:
 		if chain {
 			return // SeekGC drops cache entries, it is not a write to the map
@@ -1040,14 +1205,17 @@ func main() {
 	o := hx.NewOut(f.Out)
 	defer o.Close()
 	k := 0
-	for _, c := range corpusCases {
-		for _, kind := range c.kinds {
-			if f.Want(k) {
-				runCase(o, f, k, kind, 0, c.run)
+	runCorpus := func(cs []corpusCase) {
+		for _, c := range cs {
+			for _, kind := range c.kinds {
+				if f.Want(k) {
+					runCase(o, f, k, kind, 0, c.run)
+				}
+				k++
 			}
-			k++
 		}
 	}
+	runCorpus(corpusCases[:2])
 	// a Seek overlapped by a writer batch and a complete flush (oracle only)
 	for _, priv := range []bool{false, true} {
 		if f.Want(k) {
@@ -1055,6 +1223,7 @@ func main() {
 		}
 		k++
 	}
+	runCorpus(corpusCases[2:])
 	// concurrency cases: readers racing Persist (oracle only)
 	for i, n := 0, f.N(40, 800); i < n; i++ {
 		if f.Want(k) {
